@@ -386,6 +386,10 @@ def _remaster(img, st):
             prefix, items = rec['su'], []
             if len(prefix) % 2 and prefix[-1:] == b'\0':
                 prefix = prefix[:-1]
+            if st.get('alien') and tname == 'iso' and rr is None and not info['xa'] and not prefix and kind[0] in ('file', 'dir') and (len(ident) + st['alien']) % 3 == 0:
+                # a system use field of another tool's making (not SUSP, not XA): ECMA-119 9.1.13 leaves its content to the
+                # recording system; a reader may ignore it but must not lose the record over it
+                prefix = b'ZZ' + bytes([6 + 2 * (st['alien'] % 4), 1]) + b'hi' + b'xy' * (st['alien'] % 4)
         return RecPlan(raw, ident, kind, bytes(prefix), items, st, is_root_dot)
 
     for tname, t in trees.items():
